@@ -42,6 +42,16 @@ class PandasMaterializer(FormulaMaterializer):
     @override
     def _is_categorical(self, values: Any) -> bool:
         if isinstance(values, (pandas.Series, pandas.Categorical)):
+            if isinstance(values.dtype, pandas.ArrowDtype):
+                # e.g. text read with `dtype_backend="pyarrow"`
+                import pyarrow
+
+                pa_type = values.dtype.pyarrow_dtype
+                return (
+                    pyarrow.types.is_string(pa_type)
+                    or pyarrow.types.is_large_string(pa_type)
+                    or pyarrow.types.is_dictionary(pa_type)
+                )
             return values.dtype == object or isinstance(
                 values.dtype, (pandas.CategoricalDtype, pandas.StringDtype)
             )
